@@ -118,7 +118,61 @@ func isPadHelper(fn *ssa.Function) (sizeIdx, srcIdx int, ok bool) {
 		return
 	}
 	cond, isB := iff.Cond.(*ssa.BinOp)
-	if !isB || cond.Op != token.LSS {
+	if !isB {
+		return
+	}
+	// count-down form: for missing := int(size) − len(src); missing > 0; missing-- (third benign round)
+	if (cond.Op == token.GTR || cond.Op == token.LSS) && func() bool {
+		cnt, zero := cond.X, cond.Y
+		if cond.Op == token.LSS {
+			cnt, zero = cond.Y, cond.X
+		}
+		k, isK := constInt(zero)
+		cph, isPh := cnt.(*ssa.Phi)
+		if !isK || k != 0 || !isPh || cph.Block() != ph.Block() || len(cph.Edges) != 2 {
+			return false
+		}
+		lcd := NewLinCtx(nil, fn)
+		var init ssa.Value
+		stepOK := false
+		for i, e := range cph.Edges {
+			if cph.Block().Dominates(cph.Block().Preds[i]) {
+				if bo, ok := e.(*ssa.BinOp); ok && bo.Op == token.SUB && bo.X == ssa.Value(cph) {
+					if k1, ok := constInt(bo.Y); ok && k1 == 1 {
+						stepOK = true
+					}
+				}
+			} else {
+				init = e
+			}
+		}
+		if !stepOK || init == nil {
+			return false
+		}
+		for i, pa := range fn.Params {
+			if _, isInt := intBasic(pa.Type()); !isInt {
+				continue
+			}
+			if linEq(lcd.Lin(init), lcd.Lin(pa).add(lcd.LenLin(src), -1)) {
+				sizeIdx, srcIdx, ok = i, paramIndex(fn, src), true
+				return true
+			}
+			for _, b := range fn.Blocks {
+				for _, in := range b.Instrs {
+					if cv, isCv := in.(*ssa.Convert); isCv && cv.X == ssa.Value(pa) {
+						if linEq(lcd.Lin(init), lcd.Lin(cv).add(lcd.LenLin(src), -1)) {
+							sizeIdx, srcIdx, ok = i, paramIndex(fn, src), true
+							return true
+						}
+					}
+				}
+			}
+		}
+		return false
+	}() {
+		return
+	}
+	if cond.Op != token.LSS {
 		return
 	}
 	lcx := NewLinCtx(nil, fn)
@@ -380,65 +434,148 @@ func checkC04(p *Program, r *Report) {
 			r.Unresolved("C04.guards", "uint8 depth increment in Child")
 		}
 	}
-	// (2) hardened from public rejects
+	// (2) hardened from public rejects.  Path-sensitive over the two facts that matter (after the third benign round:
+	// `hardened && !k.isPrivate`, mirrored comparisons and hoisted booleans are all the same guard): no accepting return
+	// is reachable along edges that are consistent with "i ≥ 2^31" and "the key is public".
 	{
-		okH := false
-		var pos token.Pos
-		for _, b := range child.Blocks {
-			iff, ok := lastInstr(b).(*ssa.If)
+		hardTruth := func(v ssa.Value) (isTest bool, whenTrue bool) {
+			hb, ok := v.(*ssa.BinOp)
 			if !ok {
-				continue
+				return false, false
 			}
-			// the hardened test: i ≥ 2^31 (possibly via a bool variable)
-			hb, ok := iff.Cond.(*ssa.BinOp)
-			if !ok {
-				continue
-			}
-			isHardTest := false
+			isParam := func(x ssa.Value) bool { _, ok := stripChange(x).(*ssa.Parameter); return ok }
+			kOf := func(x ssa.Value) (int64, bool) { return constInt(x) }
 			switch hb.Op {
-			case token.GEQ: // i >= 2^31
-				if k, ok := constInt(hb.Y); ok && k == 1<<31 {
-					_, isHardTest = hb.X.(*ssa.Parameter)
+			case token.GEQ, token.GTR, token.LSS, token.LEQ:
+				// normalise to  i OP k
+				x, y, op := hb.X, hb.Y, hb.Op
+				if _, isK := kOf(x); isK {
+					x, y = y, x
+					switch op {
+					case token.GEQ:
+						op = token.LEQ
+					case token.GTR:
+						op = token.LSS
+					case token.LSS:
+						op = token.GTR
+					case token.LEQ:
+						op = token.GEQ
+					}
 				}
-			case token.GTR: // i > 2^31 − 1
-				if k, ok := constInt(hb.Y); ok && k == 1<<31-1 {
-					_, isHardTest = hb.X.(*ssa.Parameter)
+				k, isK := kOf(y)
+				if !isK || !isParam(x) {
+					return false, false
 				}
-			case token.NEQ: // i>>31 != 0, i&2^31 != 0
+				switch {
+				case op == token.GEQ && k == 1<<31, op == token.GTR && k == 1<<31-1:
+					return true, true // true ⇒ hardened
+				case op == token.LSS && k == 1<<31, op == token.LEQ && k == 1<<31-1:
+					return true, false // true ⇒ not hardened
+				}
+			case token.NEQ, token.EQL:
 				if k, ok := constInt(hb.Y); ok && k == 0 {
 					if sh, ok := hb.X.(*ssa.BinOp); ok {
+						good := false
 						if sh.Op == token.SHR {
 							if k2, ok := constInt(sh.Y); ok && k2 == 31 {
-								_, isHardTest = sh.X.(*ssa.Parameter)
+								good = isParam(sh.X)
 							}
 						}
 						if sh.Op == token.AND {
 							if k2, ok := constInt(sh.Y); ok && k2 == 1<<31 {
-								_, isHardTest = sh.X.(*ssa.Parameter)
+								good = isParam(sh.X)
 							}
+						}
+						if good {
+							return true, hb.Op == token.NEQ
 						}
 					}
 				}
 			}
-			if !isHardTest {
-				continue
+			return false, false
+		}
+		privTest := func(v ssa.Value) bool {
+			f, _, ok := fieldLoad(v)
+			if !ok {
+				return false
 			}
-			// b is reached only when the key is public
-			pub := false
-			for _, cd := range DomConds(b) {
-				v, truth := cd.V, cd.Truth
+			bt, isB := f.Type().Underlying().(*types.Basic)
+			return isB && bt.Kind() == types.Bool
+		}
+		accept := map[*ssa.BasicBlock]bool{}
+		for _, ap := range acceptPoints(child) {
+			accept[ap.Block] = true
+		}
+		type st struct {
+			b          *ssa.BasicBlock
+			hard, priv int8 // 0 unknown, 1 true, 2 false
+		}
+		seen := map[st]bool{}
+		var bad *ssa.BasicBlock
+		nHard := 0
+		var walk func(s st)
+		walk = func(s st) {
+			if seen[s] || bad != nil {
+				return
+			}
+			seen[s] = true
+			if accept[s.b] && s.hard != 2 && s.priv != 1 {
+				bad = s.b
+				return
+			}
+			iff, isIf := lastInstr(s.b).(*ssa.If)
+			if !isIf {
+				for _, nx := range s.b.Succs {
+					walk(st{nx, s.hard, s.priv})
+				}
+				return
+			}
+			v, neg := iff.Cond, false
+			for {
 				if u, ok := v.(*ssa.UnOp); ok && u.Op == token.NOT {
-					v, truth = u.X, !truth
+					v, neg = u.X, !neg
+					continue
 				}
-				if f, _, ok := fieldLoad(v); ok && f.Type().Underlying().(*types.Basic).Kind() == types.Bool && !truth {
-					pub = true
-				}
+				break
 			}
-			if pub && !canReachAccept(child, b.Succs[0]) {
-				okH, pos = true, hb.Pos()
+			for k, nx := range s.b.Succs {
+				truth := (k == 0) != neg // truth of v on this edge
+				ns := st{nx, s.hard, s.priv}
+				if isT, whenTrue := hardTruth(v); isT {
+					nHard++
+					h := int8(2)
+					if truth == whenTrue {
+						h = 1
+					}
+					if s.hard != 0 && s.hard != h {
+						continue // inconsistent with an earlier evaluation of the same test
+					}
+					ns.hard = h
+				} else if privTest(v) {
+					pv := int8(2)
+					if truth {
+						pv = 1
+					}
+					if s.priv != 0 && s.priv != pv {
+						continue
+					}
+					ns.priv = pv
+				}
+				walk(ns)
 			}
 		}
-		r.Add("C04.guards", FnName(child), "hardened index (≥ 2^31) on a public key rejects", pos, okH, "the block where the key is public and i ≥ 2147483648 leads only to error returns")
+		walk(st{child.Blocks[0], 0, 0})
+		if nHard == 0 {
+			r.Unresolved("C04.guards", "test of the child index against 2^31 in Child")
+		} else {
+			how := "no accepting return is reachable along edges consistent with i ≥ 2^31 on a public key"
+			pos := child.Pos()
+			if bad != nil {
+				how = "an accepting return is reachable with a hardened index on a key that is not known to be private"
+				pos = p.InstrPos(lastInstr(bad))
+			}
+			r.Add("C04.guards", FnName(child), "hardened index (≥ 2^31) on a public key rejects", pos, bad == nil, how)
+		}
 	}
 	// (3)/(4) range tests on accepting paths
 	for _, fn := range []*ssa.Function{child, master} {
